@@ -260,6 +260,15 @@ func VF_C02_L2_Shapes() {
 			if k.verb == "subscribe" {
 				ref.pending[k.rid]++
 			}
+			if k.verb == "unsubscribe" {
+				for _, it := range r.issued {
+					if it.kind.verb == "get" && it.responses == 0 {
+						// the gateway counts a client get in flight as a
+						// direct subscription of that resource
+						zzvf.Tag("unsubscribe-while-client-get-in-flight")
+					}
+				}
+			}
 			r.issue(k)
 		case a == evAct:
 			ev := events[evn]
